@@ -234,7 +234,7 @@ var $internalize = (v, t, recv, seen, makeWrapper) => {
             return new t(0, v);
         case $kindFloat32:
         case $kindFloat64:
-            return parseFloat(v);
+            return $parseFloat(v);
         case $kindArray:
             if (v === null || v === undefined) {
                 $throwRuntimeError("cannot internalize "+v+" as a "+t.string);
@@ -310,7 +310,7 @@ var $internalize = (v, t, recv, seen, makeWrapper) => {
                     var funcType = $funcType([$sliceType($emptyInterface)], [$jsObjectPtr], true);
                     return new funcType($internalize(v, funcType, makeWrapper));
                 case Number:
-                    return new $Float64(parseFloat(v));
+                    return new $Float64($parseFloat(v));
                 case String:
                     return new $String($internalize(v, $String, makeWrapper));
                 default:
